@@ -29,6 +29,21 @@ class Ctx:
         self.nqueries += 1
         self.solver_time += time.time() - t0
         return r
+    def concretize(self, term, limit=4096):
+        """Fork on the value of term: returns a concrete int v with term == v added to the path condition."""
+        for _ in range(limit):
+            self.solver.push(); self.solver.add(*self.pc)
+            r = str(self.solver.check()); self.nqueries += 1
+            if r != 'sat':
+                self.solver.pop()
+                if r == 'unsat': raise PathAbort()
+                raise Unmodelled('solver unknown in concretize')
+            v = self.solver.model().eval(term, model_completion=True).as_long()
+            self.solver.pop()
+            if self.branch(term == v):
+                return v
+        raise Unmodelled('concretize limit')
+
     def branch(self, cond):
         cond = z3.simplify(cond)
         if z3.is_true(cond): return True
@@ -91,6 +106,20 @@ def _t(x):
 class SymBool:
     def __init__(self, t): self.t = t
     def __bool__(self): return Ctx.cur.branch(self.t)
+
+QFORK = [True]
+
+def _pydivmod(a, b):
+    """Python floor division / modulo for a symbolic divisor b != 0 (z3 div/mod are Euclidean)."""
+    q = z3.If(b > 0, a / b, z3.If(a % b == 0, a / b, a / b - 1))     # for b < 0: floor(a/b) = -ceil(a/|b|)... derived below
+    # Euclidean: a = b*qe + re, 0 <= re < |b|.  Python: r has the sign of b.
+    qe, re = a / b, a % b
+    q = z3.If(z3.Or(b > 0, re == 0), qe, qe + 1)
+    if QFORK[0] and not z3.is_int_value(z3.simplify(b)):
+        v = Ctx.cur.concretize(q)              # quotient forking: keeps every later step linear
+        return v, SymInt(a - v * b)
+    r = z3.If(z3.Or(b > 0, re == 0), re, re + b)
+    return SymInt(q), SymInt(r)
 
 def _guard(f):
     def g(s, o):
@@ -242,11 +271,16 @@ class SymInt:
             return SymInt(s.t / o, None if s.lo is None else s.lo // o, None if s.hi is None else s.hi // o)
         return SymInt(s.t / _t(o))
     def __divmod__(s, o):
-        return s // o, s % o
+        if isinstance(o, int) and not isinstance(o, bool) and o > 0:
+            return s // o, s % o
+        return _pydivmod(s.t, _t(o))
     def __rdivmod__(s, o):
-        q = SymInt(_t(o) / s.t); r = SymInt(_t(o) % s.t)
-        return q, r
-    def __rfloordiv__(s, o): return SymInt(_t(o) / s.t)
+        return _pydivmod(_t(o), s.t)
+    def __rfloordiv__(s, o): return _pydivmod(_t(o), s.t)[0]
+    def __abs__(s):
+        lo = 0 if (s.lo is None or s.hi is None) else (0 if s.lo <= 0 <= s.hi else min(abs(s.lo), abs(s.hi)))
+        hi = None if (s.lo is None or s.hi is None) else max(abs(s.lo), abs(s.hi))
+        return SymInt(z3.If(s.t >= 0, s.t, -s.t), lo, hi)
     def __lshift__(s, o):
         assert isinstance(o, int); return s * (1 << o)
     def __rshift__(s, o):
